@@ -66,7 +66,23 @@ structure IterEnv where
   otherArgs : List Value
   atOpen : Bool
   sendRes : Value
-  recvRes : Value
+  /-- `recv_timeout` returns `Ok(m)` (`recvOk`) or `Err(e)`, with `m` / `e` the enum variant `recvVariant`
+      (`Message::ThreadAbort`, `Message::ChronyNotResponding`, .., `RecvTimeoutError::Timeout`,
+      `RecvTimeoutError::Disconnected`) with payload `recvArgs` -/
+  recvOk : Bool
+  recvVariant : String
+  recvArgs : List Value
+
+def IterEnv.recvRes (e : IterEnv) : Value :=
+  .enumv (if e.recvOk then "Ok" else "Err") [.enumv e.recvVariant e.recvArgs]
+
+/-- `recv_timeout` returned `Ok(Message::ThreadAbort)` -/
+def IterEnv.isAbort (e : IterEnv) : Bool := e.recvOk && decide (e.recvVariant = "Message::ThreadAbort")
+
+/-- the inputs from position `p` on are the values `vs` -/
+def inputsAt (inp : Nat → Value) : Nat → List Value → Prop
+  | _, [] => True
+  | p, v :: vs => inp p = v ∧ inputsAt inp (p + 1) vs
 
 /-- the result of `blocking_query_uds` (the fields of `Reply` the daemon reads: `body`) -/
 def replyValue (e : IterEnv) : ReplyKind → Value
@@ -114,18 +130,6 @@ def pollerLoopSt (e : IterEnv) (keep : Bool) (s : PollerState) (refid : Option N
   { env := [("keep_running", .bool keep), ("sleep", .duration e.sleepNs), ("phc_info", optPhcValue e.path refid),
             ("poller", pollerValue s), ("ctx", contextValue "ChannelId::ClockErrorBoundPoller")],
     log := log, pos := pos }
-
-/-- does `recv_timeout` / `recv` return `Ok(Message::ThreadAbort)`? -/
-def isAbort : Value → Bool
-  | .enumv "Ok" [.enumv "Message::ThreadAbort" []] => true
-  | _ => false
-
-/-- results of `recv_timeout` the statements range over: `Ok(m)` for a message `m` (an enum variant with
-    any payload), `Err(e)` for an error `e` (an enum variant: `RecvTimeoutError::Timeout`/`Disconnected`) -/
-def isRecvResult : Value → Bool
-  | .enumv "Ok" [.enumv _ _] => true
-  | .enumv "Err" [.enumv _ _] => true
-  | _ => false
 
 /-! ### the writer thread -/
 
